@@ -151,15 +151,48 @@ def functions_of(tree):
   return out
 
 
+STATEFUL_CONSTRUCTORS = {"RandomState", "default_rng", "Random", "SystemRandom", "Generator", "SeedSequence", "count", "cycle",
+                         "iter", "deque", "open", "Lock", "Queue"}
+
+
+def module_stateful_globals(tree):
+  """Module-level names bound to an object that carries hidden mutable state of its own (a random generator seeded at
+  import, an iterator, a queue ...): every use from inside a function makes the result depend on the call history of
+  the PROCESS, i.e. on state that lives outside the optimizer state pytree."""
+  out = {}
+  for st in tree.body:
+    if isinstance(st, (ast.Assign, ast.AnnAssign)) and st.value is not None:
+      for sub in ast.walk(st.value):
+        if isinstance(sub, ast.Call):
+          nm = ast.unparse(sub.func).split(".")[-1]
+          if nm in STATEFUL_CONSTRUCTORS:
+            targets = st.targets if isinstance(st, ast.Assign) else [st.target]
+            for t in targets:
+              for x in ast.walk(t):
+                if isinstance(x, ast.Name):
+                  out[x.id] = (st.lineno, ast.unparse(sub)[:60])
+  return out
+
+
 def check_module(text, modname, assigns):
   """Returns (records, module_level_violations). One record per function."""
   tree = ast.parse(text)
   lines = text.splitlines(keepends=True)
   recs = []
+  stateful = module_stateful_globals(tree)
   for q, fn in functions_of(tree):
     src = "".join(lines[fn.lineno - 1:fn.end_lineno])
+    v = check_function(fn, q, assigns)
+    if stateful:
+      loc = _locals(fn)
+      a = fn.args
+      params = {p_.arg for p_ in a.posonlyargs + a.args + a.kwonlyargs}
+      for n in _walk_own(fn):
+        if isinstance(n, ast.Name) and isinstance(n.ctx, ast.Load) and n.id in stateful and n.id not in loc and n.id not in params:
+          v.append(("process-global-state", n.lineno,
+                    f"use of module-level stateful object {n.id} = {stateful[n.id][1]} (line {stateful[n.id][0]})"))
     recs.append({"function": f"{modname}:{q}", "sha": hashlib.sha256(src.encode()).hexdigest(),
-                 "violations": check_function(fn, q, assigns)})
+                 "violations": v})
   # module globals assigned once
   seen = {}
   modv = []
